@@ -163,9 +163,10 @@ def check(repo: Repo, rep: Report) -> None:
            "sample subscribes the sampler before the source: with both on one scheduler a tick scheduled for an instant runs before the source "
            "element of the same instant, so that element is emitted one tick late (or overwritten and never emitted)")
     so_params = repo.fn(SM, "sample_observable").params[:2]
+    from ..rules import inline_locals as _inl16
     calls_so = [n_ for n_ in sm_.all_nodes() if isinstance(n_, ast.Call) and call_name(n_) == "sample_observable"]
     rep.ob("R4-sample-once", sm_, f"sample_: sample_observable(<source>, <sampler>) in that order ({len(calls_so)} calls)",
-           bool(calls_so) and all(len(c_.args) == 2 and u(c_.args[0]) == sm_.params[0] and (u(c_.args[1]) == sm_.params[1] or isinstance(c_.args[1], ast.Call)) for c_ in calls_so),
+           bool(calls_so) and all(len(c_.args) == 2 and u(c_.args[0]) == sm_.params[0] and (u(c_.args[1]) == sm_.params[1] or isinstance(_inl16(sm_, c_.args[1]), ast.Call)) for c_ in calls_so),
            "sample_ hands its source and its sampler to sample_observable in the wrong order: the sampler is sampled at the source's elements")
     ss = repo.fn(SM, "sample_observable.subscribe.sample_subscribe")
     sroot = repo.fn(SM, "sample_observable.subscribe")
